@@ -68,7 +68,11 @@ var (
 )
 
 // Active returns the scheduler of the current run or nil (free mode).
+//
+//go:norace
 func Active() *Sched {
+	RaceDisable()
+	defer RaceEnable()
 	gmu.Lock()
 	defer gmu.Unlock()
 	return g
@@ -82,6 +86,8 @@ type Options struct {
 }
 
 // Start installs a new scheduler as the process-global active one.
+//
+//go:norace
 func Start(o Options) *Sched {
 	s := &Sched{byGoid: map[uint64]*Task{}, notify: make(chan struct{}, 1), spin: map[string]int{}}
 	s.rng = rand.New(rand.NewPCG(o.Seed, 0x5eed0001))
@@ -98,12 +104,15 @@ func Start(o Options) *Sched {
 }
 
 // Stop removes the active scheduler.
+//
+//go:norace
 func Stop() {
 	gmu.Lock()
 	g = nil
 	gmu.Unlock()
 }
 
+//go:norace
 func goid() uint64 {
 	var buf [64]byte
 	n := runtime.Stack(buf[:], false)
@@ -115,7 +124,11 @@ func goid() uint64 {
 }
 
 // Cur returns the task of the calling goroutine, adopting it if unknown.
+//
+//go:norace
 func (s *Sched) Cur() *Task {
+	RaceDisable()
+	defer RaceEnable()
 	id := goid()
 	s.mu.Lock()
 	defer s.mu.Unlock()
@@ -129,6 +142,7 @@ func (s *Sched) Cur() *Task {
 	return t
 }
 
+//go:norace
 func (s *Sched) ping() {
 	select {
 	case s.notify <- struct{}{}:
@@ -136,6 +150,7 @@ func (s *Sched) ping() {
 	}
 }
 
+//go:norace
 func (s *Sched) checkPoison() {
 	if s.poison.Load() {
 		runtime.Goexit()
@@ -143,6 +158,8 @@ func (s *Sched) checkPoison() {
 }
 
 // Go starts f as a managed task (rewritten `go` statements and harness API calls).
+//
+//go:norace
 func Go(name string, f func()) *Task {
 	s := Active()
 	if s == nil {
@@ -153,34 +170,45 @@ func Go(name string, f func()) *Task {
 }
 
 // Go starts f as a managed task of s.
+//
+//go:norace
 func (s *Sched) Go(name string, f func()) *Task {
+	RaceDisable()
 	s.mu.Lock()
 	t := &Task{ID: s.nextID, Name: name, wake: make(chan struct{})}
 	s.nextID++
 	s.all = append(s.all, t)
 	s.mu.Unlock()
+	RaceEnable()
+	// the go statement itself stays visible to the race detector (parent happens-before child)
 	go func() {
+		RaceDisable()
 		id := goid()
 		s.mu.Lock()
 		s.byGoid[id] = t
 		s.parked = append(s.parked, t)
 		s.mu.Unlock()
 		defer func() {
+			RaceDisable()
 			s.mu.Lock()
 			delete(s.byGoid, id)
 			t.done = true
 			s.mu.Unlock()
 			s.ping()
+			RaceEnable()
 		}()
 		s.ping()
 		<-t.wake
 		s.checkPoison()
+		RaceEnable()
 		f()
 	}()
 	return t
 }
 
 // GoExclusive starts an observer task: once chosen it keeps running until it ends or blocks.
+//
+//go:norace
 func (s *Sched) GoExclusive(name string, f func()) *Task {
 	t := s.Go(name, f)
 	t.excl = true
@@ -188,7 +216,11 @@ func (s *Sched) GoExclusive(name string, f func()) *Task {
 }
 
 // Yield is a scheduling point.
+//
+//go:norace
 func Yield() {
+	RaceDisable()
+	defer RaceEnable()
 	s := Active()
 	if s == nil {
 		return
@@ -207,7 +239,11 @@ func Yield() {
 
 // Block parks the current task without making it runnable. The caller has registered t
 // somewhere from where MakeRunnable will be called.
+//
+//go:norace
 func (s *Sched) Block(t *Task, what string) {
+	RaceDisable()
+	defer RaceEnable()
 	if s.poison.Load() {
 		runtime.Goexit()
 	}
@@ -219,7 +255,11 @@ func (s *Sched) Block(t *Task, what string) {
 }
 
 // MakeRunnable moves blocked tasks to the runnable set.
+//
+//go:norace
 func (s *Sched) MakeRunnable(ts ...*Task) {
+	RaceDisable()
+	defer RaceEnable()
 	if len(ts) == 0 {
 		return
 	}
@@ -230,10 +270,16 @@ func (s *Sched) MakeRunnable(ts ...*Task) {
 }
 
 // Poisoned reports teardown mode.
+//
+//go:norace
 func (s *Sched) Poisoned() bool { return s.poison.Load() }
 
 // NotePanic records a recovered panic (R7 probe).
+//
+//go:norace
 func NotePanic(v any) {
+	RaceDisable()
+	defer RaceEnable()
 	if v == nil {
 		return
 	}
@@ -270,6 +316,7 @@ var ErrStepBudget = fmt.Errorf("step budget exceeded")
 // ErrIdle is returned when nothing happens for the idle horizon although the driver is not done.
 var ErrIdle = fmt.Errorf("idle horizon reached without Done()")
 
+//go:norace
 func (s *Sched) choose(n int, curFirst bool) int {
 	if n <= 1 {
 		return 0
@@ -293,7 +340,11 @@ func (s *Sched) choose(n int, curFirst bool) int {
 }
 
 // Loop runs the system until the driver is done, an invariant fails or a bound is hit.
+//
+//go:norace
 func (s *Sched) Loop(d Driver, maxSteps int, idleHorizon time.Duration) error {
+	RaceDisable()
+	defer RaceEnable()
 	for {
 		synctest.Wait()
 		s.mu.Lock()
@@ -401,6 +452,7 @@ func (s *Sched) Loop(d Driver, maxSteps int, idleHorizon time.Duration) error {
 	}
 }
 
+//go:norace
 func hashStr(x string) uint64 {
 	h := uint64(14695981039346656037)
 	for i := 0; i < len(x); i++ {
@@ -411,9 +463,13 @@ func hashStr(x string) uint64 {
 }
 
 // SchedSig is a hash of the sequence of (task site | event name) scheduled so far.
+//
+//go:norace
 func (s *Sched) SchedSig() uint64 { return s.schedSig }
 
 // Alive returns the tasks that have not finished.
+//
+//go:norace
 func (s *Sched) Alive() []*Task {
 	s.mu.Lock()
 	defer s.mu.Unlock()
@@ -427,6 +483,8 @@ func (s *Sched) Alive() []*Task {
 }
 
 // TaskCount returns the number of tasks ever created.
+//
+//go:norace
 func (s *Sched) TaskCount() int {
 	s.mu.Lock()
 	defer s.mu.Unlock()
@@ -434,6 +492,8 @@ func (s *Sched) TaskCount() int {
 }
 
 // Describe lists alive tasks with what they wait for.
+//
+//go:norace
 func (s *Sched) Describe() []string {
 	var r []string
 	for _, t := range s.Alive() {
@@ -449,6 +509,8 @@ func (s *Sched) Describe() []string {
 // Teardown kills every task that is parked in the scheduler (runnable or blocked in vsync / sim I/O)
 // by making it Goexit at its park point. Tasks blocked in real channel operations cannot be killed;
 // the caller recovers synctest's end-of-bubble panic for those.
+//
+//go:norace
 func (s *Sched) Teardown() {
 	s.poison.Store(true)
 	for i := 0; i < 1000; i++ {
@@ -482,10 +544,16 @@ func SortedKeys[M ~map[K]V, K cmp.Ordered, V any](m M) []K {
 }
 
 // ZeroElem returns the zero value of a channel's element type (used by rewritten selects).
+//
+//go:norace
 func ZeroElem[T any, C interface{ ~chan T | ~<-chan T }](c C) (z T) { return }
 
 // SelectOrder returns the order in which a rewritten select polls its clauses (rule R4).
+//
+//go:norace
 func SelectOrder(n int) []int {
+	RaceDisable()
+	defer RaceEnable()
 	s := Active()
 	p := make([]int, n)
 	for i := range p {
@@ -501,7 +569,11 @@ func SelectOrder(n int) []int {
 }
 
 // Intn replaces math/rand.Intn in the system under test (rule R6).
+//
+//go:norace
 func Intn(n int) int {
+	RaceDisable()
+	defer RaceEnable()
 	s := Active()
 	if s == nil {
 		return rand.IntN(n)
@@ -512,7 +584,11 @@ func Intn(n int) int {
 }
 
 // UUID replaces uuid.New().String()-style identifiers with a counter (rule R6).
+//
+//go:norace
 func UUID() string {
+	RaceDisable()
+	defer RaceEnable()
 	s := Active()
 	if s == nil {
 		return fmt.Sprintf("free-%d", rand.Uint64())
@@ -526,7 +602,11 @@ func UUID() string {
 // SpinGuard is called at the top of loop bodies that may busy-spin (inserted by R3 in
 // select-default loops). It yields; if the same site spins more than limit times in a row
 // without any other task running, the task is quarantined (blocked forever).
+//
+//go:norace
 func SpinGuard(site string) {
+	RaceDisable()
+	defer RaceEnable()
 	s := Active()
 	if s == nil || s.poison.Load() {
 		return
